@@ -1,20 +1,20 @@
 (* Properties_C02.v — C02: all three neighbour searches return exactly the k nearest other
-   samples.  Only statements; proofs are in Knn_Spec.v and Knn_*_Proof.v.
+   samples.  Only statements; proofs are in Knn_Spec.v, Knn_*_Proof.v and CoverTree_*.v.
 
-   Reading guide
+   Reading guide   ("current" = the code in /repo now, i.e. after the fixes F1, F2, F25, F26, F28;
+                    "old" = the code before the named fix, kept as regression theorems)
      spec            is_knn (Knn_Spec.v), decided by is_knn_b (extracted; run on the
                      implementation's own output)
-     brute force     brute_exact (repaired code), brute_exact_partial / brute_dup_refuted
-                     (shipped code); std::nth_element is an oracle with contract nth_ok
+     brute force     brute_exact (current code), brute_exact_partial / brute_dup_refuted
+                     (old code, before F1); std::nth_element is an oracle with contract nth_ok
      VP-tree         vp_search_exact for EVERY tree satisfying vp_inv, build_inv for every
                      oracle answer (pivot draw, nth_element) meeting its contract,
-                     vptree_wrapper_exact (repaired), vp_row_exact_partial / vp_dup_refuted
-                     (shipped), kernel_comparator for the kernel flavour
-     cover tree      ct_select_exact (repaired selection), ct_select_refuted (shipped);
-                     covertree_exact_partial: PARTIAL — completeness of the candidate set
-                     returned by the batch query (cand_complete) is an oracle contract that
-                     the harness validates against brute force on every query it runs; it is
-                     not proved from a model of covertree.hpp.
+                     vptree_wrapper_exact (current wrapper), vp_row_exact_partial / vp_dup_refuted
+                     (old wrapper, before F1), kernel_comparator for the kernel flavour
+     cover tree      ct_select_exact (current selection stage), ct_select_refuted /
+                     ct_select_count_refuted (old selection, before F2); covertree_exact_partial:
+                     the selection from a candidate list that passes the run-time completeness
+                     check cand_complete_b.
      cover tree query  CoverTree_Model.v is an executable model of the batch query (descend, shell,
                      copy_zero_set, copy_cover_sets, brute_nearest, the k-vector of upper bounds) run on
                      the dumped REAL tree.  ct_query_complete_partial: for every metric and every tree
